@@ -500,6 +500,7 @@ def log_step(it, stmt, fr, loglist, state, prefix):
         o = Obj(cls, {'process': atom_str(z3.Int('log.process')), 'thread_identifier': SInt(z3.Int('log.tid')),
                       'process_identifier': SInt(z3.Int('log.pid'))})
         state['log_obj'] = o
+        state['log_fields'] = dict(o.fields)
         return o
     it.contracts['pykdebugparser.os_log_event:OsLogEvent.from_raw_log_event'] = frle
     T, P = p.fields['threads_pids'], p.fields['pids_names']
@@ -511,6 +512,9 @@ def log_step(it, stmt, fr, loglist, state, prefix):
     o = state.get('log_obj')
     ok = len(calls) == 1 and calls[0][0] is raw and len(new) == 1 and new[0][1] is o
     ctx.oblige(prefix + '/logs.step-decodes-and-yields-the-record', z3.BoolVal(ok))
+    # the yielded record is the decoded one, field for field: the container adds nothing to it and changes nothing in it
+    untouched = o is not None and set(o.fields) == set(state['log_fields']) and all(o.fields[k] is v for k, v in state['log_fields'].items())
+    ctx.oblige(prefix + '/logs.step-yields-the-record-unmodified', z3.BoolVal(bool(untouched)))
     ctx.oblige(prefix + '/logs.step-strings-resolved-through-the-index', z3.BoolVal(len(calls) == 1 and calls[0][1] is it.lookup('log_strings', fr)))
     named = z3.And(libattr.StrNonEmpty(z3.Int('log.process')), z3.Int('log.tid') != 0)
     wrote = len(T.writes) > w0t
